@@ -86,13 +86,17 @@ def run_lines(hb, stream, lines, **kw):
 
 def load_known(c):
     """known_findings.json entries of C05 plus the proposed ones that are not merged yet"""
-    ids = {f["id"] for f in c.known}
+    ids = {f["id"]: f for f in c.known}
     if os.path.exists(PROPOSED_PATH):
         try:
             for f in json.load(open(PROPOSED_PATH)).get("findings", []):
-                if f.get("property") == PID and f["id"] not in ids:
+                if f.get("property") != PID:
+                    continue
+                if f["id"] not in ids:
                     c.known.append(f)
-                    ids.add(f["id"])
+                    ids[f["id"]] = f
+                elif f.get("pinned_input") and not ids[f["id"]].get("pinned_input"):
+                    ids[f["id"]]["pinned_input"] = f["pinned_input"]   # a pin added after the merge
         except Exception as e:  # a broken proposal file must not hide anything
             c.oblige("proposed findings file is readable", False, str(e))
 
